@@ -159,6 +159,7 @@ fn check2(out: &mut Out, format: Format, blk: &[u8], q: CompressionQuality, m: E
     let tag = if family && m == ErrorMetric::Uniform && sum(a) == sum(b) && a != b { "F13: colour difference orthogonal to (1,1,1): ".to_string() }
               else if family && q == CompressionQuality::Fast && e <= 80 { let _ = span; "F14: Fast quality does not refine the nudged line-fit endpoints: ".to_string() }
               else if matches!(format, Format::BC3_UNORM_RXGB | Format::BC3_UNORM_NORMAL) && m == ErrorMetric::Perceptual { "F17: perceptual metric applied to the swizzled colour block: ".to_string() }
+              else if family && m == ErrorMetric::Perceptual && q != CompressionQuality::Fast && e <= 32 { "F18: perceptual metric trades the accuracy of a weak channel next to a saturated one: ".to_string() }
               else { String::new() };
     println!("IMPL-VIOLATION {tag}two representable colours decode outside the endpoint quantisation step: channel {c} in {src} error {e} (bound {tol}): {what}");
 }
@@ -235,6 +236,14 @@ pub fn run(out: &mut Out, tier: &str, seed: u64, _corpus: Option<&str>) {
                         check(out, format, &img, w, h, q, m, d, true, "single_colour_constant_alpha");
                     }
                     if format == Format::BC1_UNORM { check_bc1_threshold(out, q, m, d, &mut rng); }
+                    // F18 witness: two greens that differ mostly in blue, perceptual metric
+                    if d == Dithering::None && m == ErrorMetric::Perceptual && matches!(format, Format::BC1_UNORM | Format::BC2_UNORM | Format::BC3_UNORM) {
+                        for (a, b2) in [([90u8, 235, 82, 255], [123u8, 239, 8, 255]), ([49, 247, 33, 255], [25, 251, 8, 255]), ([41, 49, 189, 255], [58, 28, 206, 255])] { for pat in 0..3 {
+                            let mut blk = vec![0u8; 64];
+                            for p in 0..16 { let pick_a = match pat { 0 => (p % 4 + p / 4) % 2 == 0, 1 => p < 8, _ => p % 5 != 0 }; blk[p * 4..p * 4 + 4].copy_from_slice(if pick_a { &a } else { &b2 }); }
+                            check2(out, format, &blk, q, m, d, a, b2);
+                        } }
+                    }
                     // the degenerate direction: two colours with equal channel sums (red / green, red / blue, ...)
                     if d == Dithering::None {
                         for (a, b2) in [([255u8, 0, 0, 255], [0u8, 255, 0, 255]), ([255, 0, 0, 255], [0, 0, 255, 255]), ([132, 65, 0, 255], [0, 65, 132, 255])] {
